@@ -651,7 +651,7 @@ fn copy_exec(h: &RepoHandle, dest_v1: bool, dest_comp: i32) -> String {
                 return Some("oracle-fail:copy-restore-differs");
             }
         }
-        if crate::repo::check_errors(&hd, true) != Some(0) {
+        if !matches!(crate::dispatch::c05::real_check(&hd), Ok(e) if e.is_empty()) {
             return Some("oracle-fail:copy-dest-check-errors");
         }
         None
@@ -740,7 +740,7 @@ fn collision_repo() -> Option<RepoHandle> {
     let src2 = MemSource::new(vec![SrcEntry::file(&[b"d", b"f"], b"x"), g]);
     _ = backup_labelled(&h, &src2, "s1")?;
     // both blobs are stored: the source itself is fine
-    (crate::repo::check_errors(&h, true) == Some(0)).then_some(h)
+    matches!(crate::dispatch::c05::real_check(&h), Ok(e) if e.is_empty()).then_some(h)
 }
 
 /// two snapshots of a directory holding `"q` and `A`: sorted by the unescaped name (`"` < `A`), but the escaped
